@@ -48,24 +48,24 @@ Print Assumptions C03_int_dec_exact.
 
 (* the decimal literal as a mathematical value: a text sign digits[.digits][e exponent] denotes
    Qdec neg D e10 = (-1)^neg * D * 10^e10 (dec_parts reads it off the text); when that number is
-   a float64 (dec_is_float64: zero, or M * 2^E with M < 2^53, E >= -1074) the comparison is with
-   the number itself *)
+   a finite float64 (dec_is_finite_float64: zero, or M * 2^E with M < 2^53, E >= -1074, below 2^1024)
+   the literal is accepted and the comparison is with the number itself *)
 Theorem C03_float_dec_value :
-  forall lower top p op t m e neg D e10 m' e',
+  forall lower top p op t m e neg D e10,
     p <> [] -> denote top p = Ok (GF64 (FFin m e)) ->
-    dec_parts t = Some (neg, D, e10) -> dec_is_float64 D e10 -> parse_float t = PFVal (FFin m' e') -> is_rel op ->
+    dec_parts t = Some (neg, D, e10) -> dec_is_finite_float64 D e10 -> is_rel op ->
     process_tree lower (QCompare p op (VDouble t)) top
     = mkOut (rel_holds op (Some (Qcompare (Qval m e) (Qdec neg D e10)))) ErrNone None.
-Proof. exact c03_float_dec_value. Qed.
+Proof. exact c03_float_dec_finite. Qed.
 Print Assumptions C03_float_dec_value.
 
 Theorem C03_int_dec_value :
-  forall lower top p op t z neg D e10 m' e',
+  forall lower top p op t z neg D e10,
     p <> [] -> denote top p = Ok (GInt z) -> (Z.abs z <= two53)%Z ->
-    dec_parts t = Some (neg, D, e10) -> dec_is_float64 D e10 -> parse_float t = PFVal (FFin m' e') -> is_rel op ->
+    dec_parts t = Some (neg, D, e10) -> dec_is_finite_float64 D e10 -> is_rel op ->
     process_tree lower (QCompare p op (VDouble t)) top
     = mkOut (rel_holds op (Some (Qcompare (inject_Z z) (Qdec neg D e10)))) ErrNone None.
-Proof. exact c03_int_dec_value. Qed.
+Proof. exact c03_int_dec_finite. Qed.
 Print Assumptions C03_int_dec_value.
 
 (* every other accepted decimal literal is converted to the NEAREST float64, ties to even
@@ -93,10 +93,10 @@ Print Assumptions C03_round_nearest_even.
 
 (* the premises hold for 1.5, -2.25, 1.0e3, 0.0 *)
 Example C03_decimal_examples :
-  (dec_parts [49;46;53]%N = Some (false, 15, -1)%Z /\ dec_is_float64 15 (-1)) /\
-  (dec_parts [45;50;46;50;53]%N = Some (true, 225, -2)%Z /\ dec_is_float64 225 (-2)) /\
-  (dec_parts [49;46;48;101;51]%N = Some (false, 10, 2)%Z /\ dec_is_float64 10 2) /\
-  (dec_parts [48;46;48]%N = Some (false, 0, -1)%Z /\ dec_is_float64 0 (-1)).
+  (dec_parts [49;46;53]%N = Some (false, 15, -1)%Z /\ dec_is_finite_float64 15 (-1)) /\
+  (dec_parts [45;50;46;50;53]%N = Some (true, 225, -2)%Z /\ dec_is_finite_float64 225 (-2)) /\
+  (dec_parts [49;46;48;101;51]%N = Some (false, 10, 2)%Z /\ dec_is_finite_float64 10 2) /\
+  (dec_parts [48;46;48]%N = Some (false, 0, -1)%Z /\ dec_is_finite_float64 0 (-1)).
 Proof. exact dec_examples. Qed.
 
 Theorem C03_nan :
